@@ -116,6 +116,7 @@ def _wrap_can(cls, name, orig):
             store = getattr(self, "belt", None)
         sh = mon.shadow(store) if store is not None else None
         before = (len(sh.pend["put"]) + len(sh.grant["put"]), len(sh.pend["get"]) + len(sh.grant["get"])) if sh is not None else None
+        seq0 = sh.seq if sh is not None else 0
         try:
             res = orig(self, *a, **k)
         except BaseException as e:
@@ -126,6 +127,10 @@ def _wrap_can(cls, name, orig):
             after = (len(sh.pend["put"]) + len(sh.grant["put"]), len(sh.pend["get"]) + len(sh.grant["get"]))
             mon.counters["can_query_side_effect_checks"] += 1
             if after != before:
+                for side in ("put", "get"):
+                    for r in sh.pend[side] + sh.grant[side]:
+                        if r.seq > seq0:
+                            r.leaked = True
                 what = f"{sh.kind}:{name}-left-a-reservation-behind"
                 d = {"edge": getattr(self, "id", None), "answer": bool(res), "requests_before": before, "requests_after": after}
                 mon.violation("C10", "leaked_reservation", what, d)
